@@ -60,9 +60,28 @@ func area(r []Point, i int, p Polygon, bounds []*Bounds) float64 {
 		return -A // This is a hole
 	}
 
-	// All of the points on this ring are on the edge of the polygon. In this
-	// case we check if this ring exactly matches, and therefore cancels out,
-	// any of the other rings.
+	// All of the points on this ring are on the edge of the polygon: rings
+	// may touch in their vertices (a hole in every corner of its shell). The
+	// middle of one of the ring's sides usually is clear of the other rings
+	// and decides in the same way.
+	for ii := range r {
+		next := r[(ii+1)%len(r)]
+		mid := Point{X: r[ii].X + (next.X-r[ii].X)/2, Y: r[ii].Y + (next.Y-r[ii].Y)/2}
+		if mid == r[ii] || mid == next {
+			continue
+		}
+		in := pointInPolygon(mid, pWithoutRing, boundsWithoutRing)
+		if in == OnEdge {
+			continue
+		} else if in == Outside {
+			return A // This is not a hole.
+		}
+		return -A // This is a hole
+	}
+
+	// Every vertex and the middle of every side of this ring are on the edge
+	// of the polygon. In this case we check if this ring exactly matches, and
+	// therefore cancels out, any of the other rings.
 	matches := 0
 	for _, rr := range pWithoutRing {
 		if pointsSimilar(r, rr, 0) {
